@@ -1157,9 +1157,22 @@ def _do_edit(sim, cl, i, op, g):
     orders or coordinates on the same atoms and bonds (a copy, or in place).  The
     unique x coordinate (atom tracer) is left alone."""
     inplace = bool(op.get("inplace"))
-    h = g if inplace else g.copy()
     r = Random(op["x"])
     how = op["how"]
+    if how == "reorder":
+        # the same labelled molecule built by hand in another order: atoms inserted
+        # in a shuffled order, bonds listed in a shuffled order and orientation
+        inplace = False
+        h = T.nx.Graph()
+        items = [(n, dict(d)) for n, d in g.nodes(data=True)]
+        r.shuffle(items)
+        h.add_nodes_from(items)
+        es = [((u, v) if r.random() < 0.5 else (v, u), dict(d)) for u, v, d in g.edges(data=True)]
+        r.shuffle(es)
+        h.add_edges_from((u, v, d) for (u, v), d in es)
+        h.graph.update(g.graph)
+        return h
+    h = g if inplace else g.copy()
     nodes = list(h.nodes)
     edges = list(h.edges)
     Y, Z = T.Y, T.Z
